@@ -537,6 +537,8 @@ func buildURI(uc *URICase) *protocol.URI {
 			u.SetQueryStringBytes([]byte(q))
 		case "update":
 			u.Update("?" + q)
+		case "updatehash":
+			u.Update("?" + q + "#fromref") // a relative reference "?query#fragment": the fragment is not part of the query
 		default:
 			u.SetQueryString(q)
 		}
@@ -1155,7 +1157,7 @@ func enumQuery(c *mc.Ctx) {
 var (
 	schemes = []string{"http", "https", "HTTP", ""}
 	hosts   = []string{"h", "h:8080", "[::1]:80", "H.Example.COM", "[FE80::1]"}
-	hists   = []string{"fresh", "reused", "reused-args", "reused-add", "reused-args/bytes", "reused-args/update", "reused-add/bytes"}
+	hists   = []string{"fresh", "reused", "reused-args", "reused-add", "reused-args/bytes", "reused-args/update", "reused-add/bytes", "reused/updatehash"}
 )
 
 type uriCtx struct {
@@ -1369,7 +1371,7 @@ func enumCookies(c *mc.Ctx) {
 
 	// D3: every attribute combination
 	type kvp struct{ k, v string }
-	kvs := []kvp{{"k", "v"}, {"K.1", "a=b c,d"}, {"", "v"}, {"k", ""}, {"k", " v"}, {"k", "v "}, {"k", " "},
+	kvs := []kvp{{"k", "v"}, {"K.1", "a=b c,d"}, {"", "v"}, {"k", ""}, {"k", " v"}, {"k", "v "}, {"k", " "}, {"", "a=b"}, {"", "dG9rZW4="}, {"", "=a"},
 		// other blanks at the edges (HTAB, no-break space, ideographic space, next line): only SP is optional whitespace there
 		{"k", "a\t"}, {"k", "\ta"}, {"k", "10\u00a0"}, {"k", "\u3000x"}, {"k", "x\u0085"}, {"k\u00a0", "v"}}
 	maxAges := []int{0, 1, 86400, 2147483647}
